@@ -157,7 +157,7 @@ impl Property for C14 {
     fn cases(tier: Tier) -> u32 {
         match tier {
             Tier::Quick => 800,
-            Tier::Thorough => 12000,
+            Tier::Thorough => 100000,
         }
     }
 
